@@ -92,8 +92,7 @@ See also: fixed, rational
         if cls.precision < 0 or str(cls.precision) != str(precision):
             raise UsageError('Guarded: precision=%s; must be an int >= 0' % precision)
 
-        if options.getopt('guard') is None: # don't override default set by rule
-            options.setopt('guard', default=cls.precision)
+        options.setopt('guard', default=cls.precision)     # declare it (keeps a default set by the rule or a value given by the user)
         guard = options.getopt('guard')
         try:
             cls.guard = int(guard)
@@ -102,8 +101,7 @@ See also: fixed, rational
         if cls.guard < 0 or str(cls.guard) != str(guard):
             raise UsageError('Guarded: guard=%s; must be an int >= 0' % guard)
 
-        if options.getopt('display') is None:   # don't override default set by rule
-            options.setopt('display', default=cls.precision)
+        options.setopt('display', default=cls.precision)   # declare it (keeps a default set by the rule or a value given by the user)
         display = options.getopt('display')
         try:
             cls.display = int(display)
